@@ -357,6 +357,23 @@ func finish(v *verdict, p *plan, pre preState, s *sessLog, first string) *verdic
 			short(e.ReplID), e.Offset, o.CacheRight, short(o.CacheID), o.Pos, o.PosAbsent)
 		break
 	}
+	// (1a) the same convention for the requests the source refused with a transient error: whatever
+	// the answer, a PSYNC asks for the successor of what the tool holds (or "? -1" / "<id> -1")
+	for _, e := range s.Refused {
+		o, ok := s.Obs[e.Stamp]
+		if !ok || e.Offset < 0 {
+			continue
+		}
+		if !pre.PosAbsent && len(s.Psync) == 0 || (!pre.PosAbsent && e.Stamp < s.Psync[0].Stamp) {
+			o.PosAbsent, o.Pos = false, pre.Pos
+		}
+		if (o.CacheRight >= 0 && e.Offset == o.CacheRight+1) || (!o.PosAbsent && e.Offset == o.Pos+1) {
+			continue
+		}
+		v.add("psync-offset-convention|asked=other|refused-request"+ctx, "PSYNC %s %d (answered -%s): at that instant the tool's cache ended at %d (id %s) and the target's stored position was %d (absent=%v): the successor of neither",
+			short(e.ReplID), e.Offset, strings.SplitN(e.Reply, " ", 2)[0], o.CacheRight, short(o.CacheID), o.Pos, o.PosAbsent)
+		break
+	}
 	// (1b) a granted continuation keeps the position it was requested from: from the +CONTINUE
 	// until the first command of the reconnect reaches the target, what a fresh instance would read
 	// as the stored position (fields of the source's ids, every database, largest offset) is never
